@@ -67,7 +67,36 @@ def run(ctx, rep):
     rep.rule('R19.b', 'polls decrypt or fail: under Some(encryptor) the returned messages are rebuilt from decrypt Ok results; a decrypt error is returned as CannotDecryptData', floor=4, analysis='A2+A3')
     pb = ctx.fn_body(SYS + '::poll_messages')
     dec = [c for c in pb.calls if c.name == DEC]
-    if len(dec) != 1:
+    cdec = []
+    if not dec:
+        # iterator-chain form: `messages.iter().map(|m| decrypt(..) -> Result<PolledMessage>).collect::<Result<Vec<_>, _>>()?`
+        for d_ in sorted(ctx.facts.body_defs()):
+            if d_.startswith(SYS + '::poll_messages::{closure') and d_.count('{closure') >= 2:
+                kb = ctx.body(d_)
+                for c in kb.calls:
+                    if c.name == DEC:
+                        cdec.append((d_, kb, c))
+    if not dec and len(cdec) == 1:
+        d_, kb, dcall = cdec[0]
+        maps = [c for c in pb.calls if (c.fn or '').endswith('Iterator::map') and any(x[0] == 'closure' and x[1] == d_ for a in c.args for x in walk(pb.expr_operand(a)))]
+        coll = [c for c in pb.calls if (c.fn or '').endswith('Iterator::collect') and maps and any(x[0] == 'call' and x[3] == maps[0].bb for x in walk(pb.expr_operand(c.args[0])))]
+        prop_ = bool(coll) and bool(pb.result_edges(coll[0]))
+        src = canon(pb.pexpr_operand(maps[0].args[0]), 0, 3) if maps else ''
+        okm = bool(maps) and bool(coll) and prop_ and '.messages' in src and 'filter' not in src and 'take' not in src and 'skip' not in src
+        rep.ob('R19.b', SYS + '::poll_messages', 'every returned message decrypted', okm, maps[0].where() if maps else None,
+               'every polled message is mapped through the decrypting closure and the results are collected with error propagation' if okm else
+               'the decrypting closure is not applied to every polled message (iterator: %s) or its errors are not propagated' % src[:100])
+        okret = {b_ for b_, k_, _ in kb.return_sites() if k_ in ('ok', 'value', 'tail')} or {x for x in kb.reach if kb.term(x).get('t') == 'return'}
+        errs = failure_edge_blocks(kb, dcall)
+        iserr = any(any((s_.get('rv') or {}).get('variant') == 'CannotDecryptData' for s_ in kb.stmts(x)) for fb in errs for x in kb.reachable(fb))
+        okvals = any(any((s_.get('rv') or {}).get('r') == 'agg' and (s_['rv'].get('adt') or '').endswith('PolledMessage') for s_ in kb.stmts(x)) for fb in errs for x in kb.reachable(fb))
+        rep.ob('R19.b', SYS + '::poll_messages', 'undecryptable ⇒ error', bool(errs) and iserr and not okvals, dcall.where(), None if errs and iserr and not okvals else 'an undecryptable record is not reported as CannotDecryptData')
+        built = [x for x in kb.reach for s_ in kb.stmts(x) if (s_.get('rv') or {}).get('r') == 'agg' and (s_['rv'].get('adt') or '').endswith('PolledMessage')]
+        okb = bool(built) and all(success_dominates(kb, dcall, x) for x in built)
+        rep.ob('R19.b', SYS + '::poll_messages', 'no path returns stored bytes undecrypted', okb, dcall.where(), 'a message is rebuilt only on the success edge of decrypt' if okb else 'a message is returned without a successful decrypt')
+        arg = canon(kb.pexpr_operand(dcall.args[1]), 0, 1)
+        rep.ob('R19.b', SYS + '::poll_messages', 'decrypts the payload', arg.endswith('.payload'), dcall.where(), 'decrypt(%s)' % arg)
+    elif len(dec) != 1:
         rep.anchor_lost('R19.b', 'decrypt in System::poll_messages')
     else:
         dcall = dec[0]
@@ -146,4 +175,11 @@ def run(ctx, rep):
                 n += 1
                 mod = bd.mod
                 ok = any(mod == m or mod.startswith(m + '::') for m in WRITE_MODULES)
+                if not ok and c.fn.endswith('OpenOptions::write'):
+                    # opened for truncation only: the function calls set_len and no data-writing API
+                    data = [x for x in bd.calls if x.fn in WR and not x.fn.endswith('OpenOptions::write') and is_user_call(x)]
+                    trunc = [x for x in bd.calls if (x.fn or '').endswith('File::set_len') and is_user_call(x)]
+                    if trunc and not data:
+                        rep.ob('R19.d', ctx.user_fn_of(df), short(c.fn), True, c.where(), 'opened for truncation only (set_len; no data-writing call in the function)')
+                        continue
                 rep.ob('R19.d', ctx.user_fn_of(df), short(c.fn), ok, c.where(), 'in %s' % mod if ok else 'a file is written from module `%s`, which is not one of the storage modules through which (encrypted) data reaches disk' % mod)
